@@ -188,6 +188,15 @@ class SymB:
     def call(self, key, *args, **kwargs):
         return self.I.call(self.I.find(key), list(args), kwargs)
 
+    def touch(self, obj, name, *args, call=False):
+        """read a property / call a method of an input object while the inputs are built (fills the object's lazy caches);
+        an exception of the read is swallowed (the cache then simply stays cold)"""
+        try:
+            v = self.I.getattr(obj, name)
+            return self.I.call(v, list(args), {}) if call else v
+        except Raised:
+            return None
+
     def module_attr(self, modname, name):
         return self.I.load_module(modname).d[name]
 
@@ -285,6 +294,13 @@ class ConcB:
 
     def call(self, key, *args, **kwargs):
         return real_object(key)(*args, **kwargs)
+
+    def touch(self, obj, name, *args, call=False):
+        try:
+            v = getattr(obj, name)
+            return v(*args) if call else v
+        except Exception:
+            return None
 
     def module_attr(self, modname, name):
         return getattr(importlib.import_module(modname), name)
